@@ -180,8 +180,16 @@ def run_into(chk, prop, tier):
                 if c["proxy"] != "socks5":
                     variants.append((dict(c, v6=True), [], None))
                     variants.append((dict(c, v6=True, tgtExt=True), [], None))
+            if prop == "C10" and m == "sync" and not c["uds"]:
+                variants.append((dict(c, upperScheme=True), [], None))
             for c2, outcomes, refuse in variants:
                 t = E.record(c2, outcomes, refuse, m)
+                if c2.get("upperScheme"):
+                    if t["result"] == "UnsupportedProtocol" and not t["ops"]:
+                        chk.coverage["upper_case_scheme_refused"] = chk.coverage.get("upper_case_scheme_refused", 0) + 1
+                        evals += 1
+                        continue  # refused before anything was connected: nothing to route
+                    t["meta"]["upperScheme"] = True
                 if c2.get("tight"):
                     t["meta"]["tight_connect_timeout"] = True
                 for vk in ("tgtExt", "v6"):
